@@ -9,7 +9,7 @@ from hypothesis import strategies as st
 EVENT_POOL = ["go", "go_back", "g", "goo", "tick", "Tick", "go2"]
 GUARD_POOL = ["g0", "g1", "g2", "g3", "g4", "g5"]
 RET_POOL = [None, 0, "", [], [1], "r", 7, {"k": 1}, {"$t": [1, "x"]}, [None], False, {"$t": []}]
-UNKNOWN_EVENTS = ["nope", "go_", "GO", "gone", "s0", ""]
+UNKNOWN_EVENTS = ["nope", "go_", "GO", "gone", "s0", "", "current_state", "allowed_events", "model", "activate_initial_state", "g0"]
 
 
 @st.composite
